@@ -247,6 +247,33 @@ func extractEquiJoinPlanRec(
 	return false
 }
 
+// hashJoinEligible reports whether a join condition can be served by a hash table
+// built once and probed for every outer row: each conjunct must either reference
+// the inner table only (the same filter for every outer row) or be an equality
+// between a column of the inner table and a column of another table.
+func hashJoinEligible(cond ValueExp, innerAlias string) bool {
+	for _, c := range splitAndConjuncts(cond) {
+		tables, hasUnqualified, safe := collectColTables(c)
+		if !safe || hasUnqualified {
+			return false
+		}
+		_, refsInner := tables[innerAlias]
+		if refsInner && len(tables) == 1 {
+			continue
+		}
+		cmp, isCmp := c.(*CmpBoolExp)
+		if !isCmp || cmp.op != EQ || !refsInner {
+			return false
+		}
+		l, lok := cmp.left.(*ColSelector)
+		r, rok := cmp.right.(*ColSelector)
+		if !lok || !rok || (l.table == innerAlias) == (r.table == innerAlias) {
+			return false
+		}
+	}
+	return true
+}
+
 // extractSingleEquiPair extracts a single (outerVal, innerSel) pair from a
 // CmpBoolExp with op == EQ where exactly one side is a concrete TypedValue
 // (the reduced outer column) and the other is a *ColSelector (inner column).
